@@ -14,7 +14,8 @@
         code (in-package driver harness/overlay/common/turbotunnel/zz_verif_c17_test.go: clientMapInner with
         explicit clock + the records' channels; cap must be queueSize):
         w<addr>:<payload>@<now> | o<addr>@<now> | h<k> | e<now>
-        each answer = <result>/<live records addr.seen.qid=contents, by address>/<closed queues qid:left> *)
+        each answer = <result>/<live records addr.seen.qid=contents, by address>/<closed queues, by identity>;
+        a receive on a closed queue answers D *)
 From Coq Require Import List NArith ZArith Bool Arith String.
 From Snow Require Import Lib.Wire Model.GoHeap Model.ClientMap Model.QueueConn Model.Redial.
 Import ListNotations.
@@ -195,25 +196,30 @@ Definition live_print (c : cmap) : bytes :=
                                    | None => bs "?"
                                    end) (byAddr c))).
 
-Fixpoint ins_dead (x : nat * nat) (l : list (nat * nat)) : list (nat * nat) :=
-  match l with
-  | [] => [x]
-  | y :: t => if Nat.leb (fst x) (fst y) then x :: l else y :: ins_dead x t
-  end.
-
+(* closed queues: identities only.  What is left in a discarded queue, and what a receive on it
+   yields (a left-over packet or "closed"), is not part of the property: both sides print D. *)
 Definition dead_print (c : cmap) : bytes :=
-  or_e (join [SEMI] (map (fun e => nat_print (fst e) ++ [COLON] ++ nat_print (snd e))
-                         (fold_right ins_dead [] (map (fun e => (fst e, List.length (snd e))) (dead c))))).
+  or_e (join [SEMI] (map nat_print (sort_nat (map fst (dead c))))).
 
 Definition qm_op_ok (o : qop) : bool :=
   match o with QWrite _ _ _ | QOutRecv _ _ | QHeldRecv _ | QSweep _ => true | _ => false end.
+
+Definition qm_res_print (s : qconn) (o : qop) (r : qout) : bytes :=
+  match o with
+  | QHeldRecv k =>
+      match find_qid k (byAge (clients s)) with
+      | Some _ => qout_print r
+      | None => if Nat.ltb k (next_qid (clients s)) then bs "D" else qout_print r
+      end
+  | _ => qout_print r
+  end.
 
 Fixpoint qmrun (cap : nat) (timeout : Z) (ops : list qop) (s : qconn) : list bytes :=
   match ops with
   | [] => []
   | o :: ops' =>
       let '(s1, r) := qstep cap timeout s o in
-      (qout_print r ++ [SLASH] ++ live_print (clients s1) ++ [SLASH] ++ dead_print (clients s1)) :: qmrun cap timeout ops' s1
+      (qm_res_print s o r ++ [SLASH] ++ live_print (clients s1) ++ [SLASH] ++ dead_print (clients s1)) :: qmrun cap timeout ops' s1
   end.
 
 (* ---------------------------------------------------------------- redial *)
